@@ -67,6 +67,7 @@ impl Prop for C11 {
             },
             controllers: 1,
             tree,
+            plain488: false,
         };
         let mut t = base_trace("C11", seed, run, "sweep", cfg.clone());
         let tc = TreeCtx::new(&cfg.tree);
